@@ -398,10 +398,10 @@ def r6_997_counter(ctx):
 
 
 RULES = [
-    Rule('C06.R1', 'who may write to the acknowledgement stream', r1_who_writes, floor=3),
-    Rule('C06.R2', 'GS08/ST03 written are constants selectable through maps.xml and accepted by the 997/999 map', r2_version_keys, floor=5),
-    Rule('C06.R3', 'input text reaches acknowledgement segments only through a delimiter sanitiser (taint)', r3_echo_taint, floor=20),
-    Rule('C06.R4', 'no partial output: guarded dict lookups, guarded None dereferences in the visitors', r4_no_partial_output, floor=10),
-    Rule('C06.R5', 'set control numbers: incremented once per group, one format', r5_st_control, floor=4),
-    Rule('C06.R6', '997 hand-kept counters: ST resets, SE = count+1, GE/IEA from loop counters', r6_997_counter, floor=8),
+    Rule('C06.R1', 'who may write to the acknowledgement stream', r1_who_writes, floor=2),
+    Rule('C06.R2', 'GS08/ST03 written are constants selectable through maps.xml and accepted by the 997/999 map', r2_version_keys, floor=3),
+    Rule('C06.R3', 'input text reaches acknowledgement segments only through a delimiter sanitiser (taint)', r3_echo_taint, floor=15),
+    Rule('C06.R4', 'no partial output: guarded dict lookups, guarded None dereferences in the visitors', r4_no_partial_output, floor=2),
+    Rule('C06.R5', 'set control numbers: incremented once per group, one format', r5_st_control, floor=3),
+    Rule('C06.R6', '997 hand-kept counters: ST resets, SE = count+1, GE/IEA from loop counters', r6_997_counter, floor=6),
 ]
